@@ -19,7 +19,9 @@ TRUSTED = [
 ASSUMPTIONS = ["keys are byte strings; values are bytes/bytearray or non-bytes objects (None, int, str)", "one live handle per path"]
 
 KEYS = [b"a", b"b", b"", b"k3", b"\x00", b"zz"]
-NONBYTES = [None, 7, "s", 1.5, [b"x"]]
+import array
+# not byte strings, some of them buffers all the same (array.array supports the buffer protocol)
+NONBYTES = [None, 7, "s", 1.5, [b"x"], array.array("d", [1.5, 2.5]), array.array("B", b"ab")]
 
 
 def scratch():
@@ -328,6 +330,31 @@ def oracle(ctx, res):
                 cls.open(os.path.join(d0, "missing_" + cls.__name__)); viol("open of a missing path accepted", cls.__name__, {})
             except FileNotFoundError:
                 pass
+            # a REFUSED create must not touch the dictionary that is already there - not at once and not when the half-built
+            # object is collected later (the existing dictionary is closed: no live handle will write it back)
+            import gc
+            p2 = os.path.join(d0, "kept_" + cls.__name__)
+            try:
+                d = cls.create(p2); d[b"k2"] = b"v2"; d[b"k3"] = b"v3"; d.close(); del d
+                d = cls.open(p2); before = {k: d[k] for k in d}; d.close(); del d
+            except Exception:
+                before = None
+            if before == {b"k2": b"v2", b"k3": b"v3"}:
+                try:
+                    cls.create(p2); viol("create over an existing dictionary accepted", cls.__name__, {})
+                except FileExistsError:
+                    pass
+                except Exception:
+                    pass
+                gc.collect()
+                try:
+                    d = cls.open(p2); after = {k: d[k] for k in d}; d.close()
+                except Exception as e:
+                    after = f"{type(e).__name__}: {e}"
+                if after != before:
+                    viol("a refused create over an existing path destroys the dictionary stored there",
+                         f"{cls.__name__}: create, set k2 k3, close; create again (FileExistsError); collect; open gives {after!r}",
+                         {"class": cls.__name__, "ops": ["create", "set k2=v2", "set k3=v3", "close", "create (refused)", "gc.collect", "open"]})
     finally:
         shutil.rmtree(d0, ignore_errors=True)
     return res
